@@ -83,6 +83,7 @@ def nat_leaves(x, out=None, seen=None, depth=0):
 
 
 class RngOb(GOb):
+    backend_label = "effect-log (tracked generators, all paths)"
     """user_call(I, random_state) runs the REAL function; kind: 'int' | 'generator'; draws: 'some' | 'none' | 'any'"""
 
     def __init__(self, name, function, setup, user_call, kind, draws, instance, clause, extra_post=None, **kw):
